@@ -168,6 +168,26 @@ def run(chk):
                     if not stats_close(sdn, s_f):
                         chk.fail("acc_stats on a Dask array of %s data differs from the float64 NumPy result" % np.dtype(dt).name,
                                  {"dtype": np.dtype(dt).name, "X": hexlist(Xq.astype(np.float64)), "shape": [C, D]})
+        # a block without frames (an empty utterance, an empty Dask chunk): zero statistics, the identity of the addition
+        if i % 3 == 0:
+            try:
+                e0 = m.acc_stats(X[0:0])
+                okz = (int(e0.t) == 0 and np.all(np.asarray(e0.n) == 0) and np.all(np.asarray(e0.sum_px) == 0) and np.all(np.asarray(e0.sum_pxx) == 0)
+                       and float(e0.log_likelihood) == 0.0)
+                chk.count(1, key=("empty-block",))
+                if not okz:
+                    chk.fail("the statistics of an empty block are not zero (n = %s)" % np.asarray(e0.n).tolist(), dict(ctx, got=dump(e0)))
+                elif not (stats_close(whole + e0, whole) and stats_close(e0 + whole, whole)):
+                    chk.fail("adding the statistics of an empty block changes the statistics", ctx)
+                if N >= 3:
+                    sde = m.acc_stats(da.from_array(X, chunks=((2, 0, N - 2), (D,))))
+                    sden = GMMStats(C, D)
+                    sden.t, sden.n, sden.sum_px, sden.sum_pxx = int(sde.t), np.asarray(sde.n), np.asarray(sde.sum_px), np.asarray(sde.sum_pxx)
+                    sden.log_likelihood = float(sde.log_likelihood)
+                    if not stats_close(sden, whole):
+                        chk.fail("acc_stats on a Dask array with an empty row chunk (2, 0, %d) differs from NumPy" % (N - 2), ctx)
+            except Exception as e:
+                chk.fail("statistics of an empty block / a Dask array with an empty chunk raise %r" % (e,), ctx)
         # arbitrary (non-consecutive) blocks
         perm = list(range(N))
         r.shuffle(perm)
